@@ -42,7 +42,14 @@ def lk(prop, rule, quick=30, thorough=600):
 PLANS["C14"] = lk("C14", "each evaluation is one seeded run of the lookupd world: 1-4 producer connections (IDENTIFY/REGISTER/UNREGISTER/PING/close/reset), HTTP admin calls, clock advances across inactivity and tombstone thresholds; after every step /lookup, /topics, /channels, /nodes are compared with a plain registry model; distinct = distinct schedule fingerprint; non-trivial = at least 5 operations with reads checked")
 PLANS["C15"] = lk("C15", "each evaluation is one seeded run of the lookupd world with hostile TCP byte streams (wrong magic, every IDENTIFY length incl. negative/huge, malformed JSON, commands before IDENTIFY, bad names, garbage) and hostile HTTP requests (route x method x argument combinations) interleaved with well-behaved bystander producers whose registrations are re-read after every step; distinct = distinct schedule fingerprint")
 
-WORLD_BIN = {"queue": "world", "lookupd": "world"}
+def pr(prop, rule, crash, quick=30, thorough=600):
+    return dict(stages=[dict(bin="world", world="proto", prop=prop, share=1.0)], quick_s=quick, thorough_s=thorough, level="exploration",
+                rule=rule, components=dict(real=REAL_Q, stub=STUB_Q), assumptions=ASSUME, crash_property=crash)
+
+PLANS["C09"] = pr("C09", "each evaluation is one seeded run of the protocol world: up to three hostile raw TCP connections execute generated V2 command streams (every command x connection state x boundary values of sizes, counts, RDY, delays and IDENTIFY options; wrong magic; truncated bodies; garbage and mutated streams; short reads) while a well-behaved publisher/consumer pair does round trips; an executable reference of the documented protocol predicts code, fatality and closure, and /stats confirms that rejected publishes enqueued nothing; distinct = distinct schedule fingerprint", "C09")
+PLANS["C10"] = pr("C10", "each evaluation is one seeded run of the protocol world: generated HTTP/1.1 requests (route x method x present/missing/invalid arguments x body sizes around the limits, Content-Length and chunked, text and binary mpub) checked against a reference table of admissible status codes (never 5xx), /stats compared with the model of topics/channels/paused flags/message counts after every request, and every generated publish executed twice (HTTP on one topic, the equivalent TCP command on a twin topic) with acceptance and delivered multisets compared; distinct = distinct schedule fingerprint", "C10")
+
+WORLD_BIN = {"queue": "world", "lookupd": "world", "proto": "world"}
 SELFTEST_WORLDS = [("queue", "ALL"), ("queue", "C08"), ("queue", "C05"), ("lookupd", "C14"), ("lookupd", "C15")]
 ALL_TARGETS = ["world"]
 
@@ -67,9 +74,12 @@ MANIFEST_TEXT = {
 MANIFEST_TEXT["C14"] = mt("seeded search over producer/admin histories and clock advances against the real nsqlookupd; oracle: after every step every read endpoint equals a plain registry model (producers = connected, recently pinged, registered, not tombstoned); concurrent bursts use commuting operations so the expected state is unambiguous.", "DESIGN.md 3 C14", "deterministic simulation: refinement of a registry model")
 MANIFEST_TEXT["C15"] = mt("seeded search over hostile TCP byte streams and HTTP requests against the real nsqlookupd with bystander producers; oracle: process stays up (a panic is attributed through the write-ahead seed log), keeps answering, bystander registrations intact, documented error codes, no HTTP 5xx.", "DESIGN.md 3 C15", "deterministic simulation: hostile-input robustness with bystander oracle")
 
+MANIFEST_TEXT["C09"] = mt("seeded search over generated V2 command streams, connection states and boundary values against the real nsqd with a bystander; oracle: executable reference of the documented protocol (code, fatality, closure per command and state) plus side-effect check through /stats (rejected PUB/DPUB enqueue nothing, MPUB all-or-nothing) and bystander round trips. Largely input-driven; the simulator adds short reads, resets at arbitrary points, the fake clock and replay.", "DESIGN.md 3 C09", "deterministic simulation: protocol reference table + side-effect oracle")
+MANIFEST_TEXT["C10"] = mt("seeded search over generated HTTP requests against the real nsqd; oracle: reference table of admissible status codes (never 5xx), registry/counter model compared with /stats after every request, and HTTP-vs-TCP twin publishes whose acceptance and consumed multisets must agree.", "DESIGN.md 3 C10", "deterministic simulation: status reference + HTTP/TCP twin equivalence")
+
 NOT_APPLICABLE = {
  "C06": "not yet built in this session (planned: fault enumeration over simos crash points)",
- "C09": "not yet built in this session", "C10": "not yet built in this session", "C11": "not yet built in this session",
+ "C11": "not yet built in this session",
  "C16": "not yet built in this session",
  "C17": "not yet built in this session", "C18": "not yet built in this session", "C19": "not yet built in this session",
  "C20": "not yet built in this session",
